@@ -6,9 +6,11 @@ package retry
 
 // ---- one sleep ------------------------------------------------------------------------------------
 
-// expo is floating point (math.Pow): assumed, not verified.
+// expo is floating point (math.Pow, math.Min): verified with floating-point arithmetic treated as exact real arithmetic
+// and math.Pow as an uninterpreted function that is >= 1 for a base >= 1 and a non-negative exponent (both recorded as
+// assumptions) - an integer rewrite that can overflow is not covered by that assumption and fails here.
 //@ func expo
-//@   trusted
+//@   prop C20
 //@   pure
 //@   requires base >= 2 && cap >= 2 && n >= 0
 //@   ensures 2 <= result && result <= cap
